@@ -50,8 +50,8 @@ impl ViewApi for RealView {
     }
     fn lines_collect(&self, take: Option<u32>) -> Vec<String> {
         match take {
-            None => self.0.lines().map(str::to_owned).collect(),
-            Some(k) => self.0.lines().take(k as usize).map(str::to_owned).collect(),
+            None => self.0.lines().map(simcore::refview::own).collect(),
+            Some(k) => self.0.lines().take(k as usize).map(simcore::refview::own).collect(),
         }
     }
     fn get_line_slice(&self, line: u32, col: u32, span: u32) -> Option<&str> {
